@@ -768,6 +768,7 @@ func verifyVisitsEveryLayer(c *core.Ctx, r *core.Rule) {
 			okElem = true
 		}
 	}
+	mismatchIffInvalid(c, r)
 	r.Check(okElem, key+"verifies-the-loop-element", p.InstrPos(call), "the layer verified is the loop element asserted to LayerWithChecksum", "the value verified is not the loop element's LayerWithChecksum view")
 }
 
